@@ -89,6 +89,7 @@ type State struct {
 	ghost    map[string]Value
 	cut      bool
 	trace    []string
+	events   []concEvent
 }
 
 func (s *State) clone() *State {
@@ -105,7 +106,7 @@ func (s *State) clone() *State {
 		g[k] = v
 	}
 	return &State{heap: h, nextObj: s.nextObj, pc: s.pc, choices: s.choices[:len(s.choices):len(s.choices)], inputs: s.inputs[:len(s.inputs):len(s.inputs)], counters: c, ghost: g,
-		trace: s.trace[:len(s.trace):len(s.trace)]}
+		trace: s.trace[:len(s.trace):len(s.trace)], events: s.events[:len(s.events):len(s.events)]}
 }
 
 func (s *State) addPC(t *Term) {
